@@ -410,7 +410,13 @@ func genPathSeg(t *rapid.T, label string, max int) string {
 func genClientReq(t *rapid.T, tag string, maxBody int) speer.ReqSpec {
 	r := speer.ReqSpec{Tag: tag, Method: rapid.SampledFrom([]string{"GET", "POST", "PUT", "DELETE", "PATCH"}).Draw(t, "method"), Path: "/" + tag}
 	if rapid.Bool().Draw(t, "longpath") {
-		r.Path += "/" + genPathSeg(t, "seg", 40) + "?q=" + genPathSeg(t, "q", 20)
+		seg := genPathSeg(t, "seg", 40)
+		if seg == "." || seg == ".." {
+			// fasthttp normalises dot segments away before the client sees the URI ("/t1/.." becomes "/"), which
+			// removes the tag the oracle finds the request by: the container's doing, outside the comparison
+			seg = "dots"
+		}
+		r.Path += "/" + seg + "?q=" + genPathSeg(t, "q", 20)
 	}
 	n := rapid.IntRange(0, 8).Draw(t, "nf")
 	for i := 0; i < n; i++ {
